@@ -219,7 +219,10 @@ func commonIterationX(c *core.Ctx, s *Stage, g *Goroutine, h *ssa.BasicBlock, nA
 			continue
 		}
 		for _, a := range f.applies {
-			if argIdx >= len(a.A) || !ir.Same(a.A[argIdx], f.elem) {
+			if argIdx >= len(a.A) {
+				ok = false
+				c.Fail("iteration", s.Name, a.Pos(), "Apply is called with %d arguments, expected the element just received at position %d", len(a.A), argIdx)
+			} else if !ir.Same(a.A[argIdx], f.elem) {
 				ok = false
 				c.Fail("iteration", s.Name, a.Pos(), "Apply is called with %s, expected the element just received", short(a.A[argIdx]))
 			}
